@@ -44,6 +44,12 @@
   policy: `C06_partial_keep_errors_agree`); templates with ignored parts are left to C06's widening clause
   (`C06_partial_ignore_widens`) and the direct oracle.  The direct oracle (harness/cmd/vh/c05.go) decides the full
   statement on the implementation.
+  On `noIgnoreInput` (no ignore marker at ANY depth): it cannot be weakened to "no ignored request PART".  The
+  statements here claim EQUALITY with the ordinary authorizer; as soon as evaluation meets a marker — a request part or,
+  since the repair of `nested-ignore-consumed-whole`, a record / set that merely contains one (`PR.whole`) — batch
+  deliberately answers for the WIDENED policy set instead.  Before that repair such a value was compared whole as a
+  known value and batch could answer Deny where the ordinary authorizer allows (`context.ls.contains(5)` with
+  `ls = [1, ignore]`: regression examples in Properties/C06.lean; table cases `nested-ignore` of the C05 / C06 harness).
 -/
 import CedarGo.Model.Batch
 import CedarGoProofs.Lemmas.C05
